@@ -62,6 +62,12 @@ def rate_sets():
     out['ratezero'] = base + [0.0] * 7
     out['rateonly'] = [0.0] * 7 + [0.00142, 0.00134, 0.0009, 0.000109, 0.0015461, 0.001182, 0.0011551]
     out['intrates'] = [1, -2, 3, 1, 0, 0, 0, 1, 0, -1, 0, 1, -1, 0]       # Python ints
+    # estimated / derived sets: small values carrying more than 8 decimals (a second-order round-trip bound of ~1e-7 m shows
+    # any first-order residual, e.g. parameters of the negated set rounded to the catalogue's 8 decimals)
+    out['fine1'] = [0.00123456789123, -0.00234567891234, 0.00345678912345, 0.000123456789123, 0.000234567891234, -0.000345678912345,
+                    0.000456789123456, 1.23456789123e-4, -2.34567891234e-4, 3.45678912345e-4, 1.23456789123e-5, 2.34567891234e-5,
+                    -3.45678912345e-5, 4.56789123456e-5]
+    out['fine2'] = [1e-9 * v for v in (3, -7, 11, 2, 5, -3, 9)] + [4.9e-9, -5.1e-9, 1.49e-8, 5.5e-9, 4.4e-9, -9.9e-9, 1.234e-8]
     return out
 
 
@@ -182,9 +188,10 @@ def ev_epoch(case, rec):
             if e == spec_par(case['trans'])['ref_epoch']:
                 st7, r7 = rec.call(conform7, pt[0], pt[1], pt[2], t)
                 d7 = math.sqrt(sum((a - b) ** 2 for a, b in zip(r[:3], r7[:3])))
-                if not (d7 <= 1e-7):
+                # (the statement's tolerance: the re-referenced parameters are rounded to 8 decimals, worth up to ~3e-7 m at 1e7 m)
+                if not (d7 <= 2e-6):
                     rec.fail('at the reference epoch conform14 does not reduce to conform7', site='transform:conform14:refepoch',
-                             observed=list(r[:3]), expected=list(r7[:3]), tol=1e-7, case=one, coords=co)
+                             observed=list(r[:3]), expected=list(r7[:3]), tol=2e-6, case=one, coords=co)
             st, back = rec.call(conform14, r[0], r[1], r[2], e, -t)
             if st != 'ok':
                 rec.fail('conform14 raised with the negated set', site='transform:conform14:neg', observed=back, case=one, coords=co)
